@@ -37,6 +37,19 @@ Theorem C01_reference_total : forall structs p, check_prog structs p = TOk tt ->
 Proof. exact type_safety. Qed.
 Print Assumptions C01_reference_total.
 
+(* the reference outcome does not depend on the fuel: OutOfFuel is the only fuel-dependent answer, so the comparison of an
+   executable with `run p FUEL` (harness/c01.py) is a comparison with THE behaviour of p whenever the run finishes *)
+From FV Require Import Proofs.CongrP.
+Theorem C01_reference_fuel_independent :
+  forall structs p fuel fuel', (fuel <= fuel')%nat -> run structs p fuel <> OutOfFuel -> run structs p fuel' = run structs p fuel.
+Proof. exact run_fuel_independent. Qed.
+Print Assumptions C01_reference_fuel_independent.
+
+Theorem C01_reference_deterministic :
+  forall structs p f1 f2, run structs p f1 <> OutOfFuel -> run structs p f2 <> OutOfFuel -> run structs p f1 = run structs p f2.
+Proof. exact run_finished_agree. Qed.
+Print Assumptions C01_reference_deterministic.
+
 (* non-vacuity for calls with by-reference arguments: the accepted program
      f0(s: &'S0, k: i32) { s.F0 = k; }   main { let v = {1, 2} as S0; f0(&'v, 3); print v.F0 }
    prints the value written through the reference *)
